@@ -39,7 +39,7 @@ func c38Gen(t *rapid.T) c38Case {
 		n = int(p.Epoch) * rapid.IntRange(1, 3).Draw(t, "k")
 	}
 	for i := 0; i < n; i++ {
-		bd := ck.BlockDesc{Parent: i, Skip: rapid.IntRange(0, 2).Draw(t, "skip")}
+		bd := ck.BlockDesc{Parent: i, Skip: rapid.IntRange(0, 2).Draw(t, "skip"), Jitter: rapid.SampledFrom([]int{0, 0, 0, 1, 500, 999}).Draw(t, "jitter")}
 		for k := rapid.IntRange(0, 2).Draw(t, "ntx"); k > 0; k-- {
 			bd.Txs = append(bd.Txs, ck.TxDesc{Kind: rapid.SampledFrom(c38Kinds).Draw(t, "kind"), Pick: []int{rapid.IntRange(0, 30).Draw(t, "p0"), rapid.IntRange(0, 30).Draw(t, "p1")}, N: rapid.IntRange(0, 5).Draw(t, "n"), Amt: rapid.IntRange(0, 4).Draw(t, "amt")})
 		}
